@@ -175,6 +175,22 @@ def mul(a, b):
             if x == 0:
                 return 0
             return _raw_mul(x, y)
+    # symbolic * symbolic: linear case split when one factor ranges over at most 5 values (signs, small counts)
+    for x, y in ((a, b), (b, a)):
+        lo, hi = iv(x)
+        if lo is not None and hi is not None and hi - lo <= 4:
+            acc = _raw_mul(hi, y) if hi != 0 else 0
+            for k in range(hi - 1, lo - 1, -1):
+                acc = ite(eq(x, k), (_raw_mul(k, y) if k != 0 else 0), acc)
+            return acc
+    raise NonLinear("symbolic * symbolic")
+
+
+class NonLinear(Exception):
+    pass
+
+
+def _unused_mul(a, b):
     return T("(* %s %s)" % (lit(a), lit(b)), "Int")
 
 
